@@ -1,4 +1,5 @@
 import FindVerif.Theorems.C08
+import FindVerif.Theorems.C08Text
 #print axioms FV.C08_clause
 #print axioms FV.C08_del_actual
 #print axioms FV.C08_symbolic_partial
@@ -6,3 +7,8 @@ import FindVerif.Theorems.C08
 #print axioms FV.C08_octal
 #print axioms FV.C08_prefix
 #print axioms FV.C08_emitted
+#print axioms FV.parsePartial_clause
+#print axioms FV.parsePermission_symbolic
+#print axioms FV.C08_written
+#print axioms FV.argWrites_perm_symbolic
+#print axioms FV.argWrites_perm_octal
